@@ -14,7 +14,7 @@ EXPLANATION = (
     "should_show_subcommand / is_hide_set / get_visible_quoted_name / should_show_help; a loop whose item uses are dominated "
     "by the !is_hide_set edge; presence/metadata-only use; hand-over to a sibling that filters its slice parameter) — an "
     "unfiltered flow to output is a violation; should_show_arg must return false first on is_hide_set(). "
-    "R12.4 completeness side: every filter/find/any on an item iteration in help_template/usage consults only the reviewed visibility and sectioning predicates (is_hide_set, should_show_*, get_help_heading, is_positional, is_global_set, ...), so no other predicate can drop a visible item. R12.3 the help error is rendered from the parser's current command. NOT decided: that every visible item is listed, "
+    "R12.2b get_visible_quoted_name yields a name only on the !hide edge. R12.5 the per-section BTreeMap in write_args is keyed by option_sort_key / positional_sort_key, which are built only from short, long, id, index and display order — attributes the validity gate keeps unique — so two visible arguments can never collapse into one entry. R12.4 completeness side: every filter/find/any on an item iteration in help_template/usage consults only the reviewed visibility and sectioning predicates (is_hide_set, should_show_*, get_help_heading, is_positional, is_global_set, ...), so no other predicate can drop a visible item. R12.3 the help error is rendered from the parser's current command. NOT decided: that every visible item is listed, "
     "boundedness of padding for every width."
 )
 TRUSTED = ["rustc MIR", "clapfacts", "lib/panics.py", "audit/panic.tsv"]
@@ -230,6 +230,22 @@ def run(ctx):
     sss = fx.body("clap_builder::output::help_template::should_show_subcommand")
     res.check(bool(sss.calls_to(r"Command::is_hide_set$")), "R12.2", "hide|should_show_subcommand", sss.where(), "should_show_subcommand = !is_hide_set", "should_show_subcommand ignores is_hide_set")
 
+    # ---------------- R12.2b the visibility helpers say `visible` only on the !hide edge
+    gvq = fx.body("clap_builder::builder::possible_value::PossibleValue::get_visible_quoted_name")
+    somes = [i for i, j, s_ in gvq.stmts() if s_["k"] == "assign" and s_["place"] == 0 and s_["rv"]["k"] == "agg" and s_["rv"].get("variant") == "Some"]
+    res.check(bool(somes) and all(any(re.match(r"^F:(self\.hide|is_hide_set\(self\))$", g) for g in guard_strs(gvq, i)) for i in somes), "R12.2", "hide|get_visible_quoted_name-dominated", gvq.where(),
+              "a name is returned only on the !hide edge", "get_visible_quoted_name returns a name on a path that does not test `hide` (%s)" % [guard_strs(gvq, i) for i in somes])
+    # ---------------- R12.5 the ordered map that collects a section cannot merge two arguments: its key is made of attributes the validity gate keeps unique
+    osk = fx.body("clap_builder::output::help_template::option_sort_key")
+    used = sorted(set(c.callee_q.rsplit("::", 1)[1] for c in osk.calls() if c.callee_q and c.callee_q.startswith("clap_builder::builder::arg::Arg::") and not sp_macro(c.sp)))
+    res.check(set(used) <= {"get_display_order", "get_id", "get_long", "get_short"} and "get_id" in used, "R12.5", "sort-key-unique", osk.where(), "sort key built from short / long / id (unique per command) + display order",
+              "option_sort_key builds the key from %s: two visible arguments can get the same key and one of them is silently dropped from the section" % used)
+    psk = fx.body("clap_builder::output::help_template::positional_sort_key")
+    usedp = sorted(set(c.callee_q.rsplit("::", 1)[1] for c in psk.calls() if c.callee_q and c.callee_q.startswith("clap_builder::builder::arg::Arg::")))
+    res.check(usedp == ["get_index"], "R12.5", "positional-key-unique", psk.where(), "positional key = index (unique)", "positional_sort_key builds the key from %s" % usedp)
+    for c in wa.calls_to(r"BTreeMap::insert$"):
+        k = expr(wa, c.args[1])
+        res.check(re.match(r"^\?\(next\(", k) is not None or "sort_key" in k, "R12.5", "map-key-from-sort-key", c.where(), "section map keyed by the sort-key function of the item", "write_args keys its section map with %s" % k[:80])
     # ---------------- R12.4 listing filters consult nothing but visibility / sectioning predicates
     nlf = listing_filters(fx, res, "R12.4", r"^clap_builder::output::(help_template|usage)::")
     res.floor("R12.4", "listing filters in help_template/usage", nlf, 15)
